@@ -171,6 +171,13 @@ func epicCampaign(r *core.Run) {
 			if rec.Panic != "" {
 				panic(core.InfraError{Msg: "router panic (C08): " + rec.Panic})
 			}
+			if r.Prop == "C07" {
+				w.checkC07(r, rec) // EPIC packets in transit: only the mutable state of the embedded path changes
+				if !rec.Reply && rec.Res.Disposition == router.VerifForward && !rec.Res.SlowPath {
+					r.Probe("c07-epic-traversal")
+				}
+				return
+			}
 			p, err := refmodel.Parse(rec.InRaw)
 			if err != nil || p.PathType != refmodel.PathEPIC || rec.Reply {
 				return
